@@ -55,9 +55,12 @@ ObsBag(e, n) ==
         K == { <<e.ops[i].s, e.ops[i].loc, e.ops[i].meth>> : i \in I }
     IN [k \in K |-> Cardinality({ i \in I : <<e.ops[i].s, e.ops[i].loc, e.ops[i].meth>> = k })]
 Touched(e, n) == { <<e.ops[i].s, e.ops[i].loc>> : i \in { j \in 1 .. n : e.ops[j].op = "touch" } }
-MergesDisjoint(e, n) ==     \* no cell in two job matrices (the documented precondition of update())
+(* precondition of the split: every location (bin) belongs to ONE job - what the producers guarantee (jobs are whole     *)
+(* numbers of bins) and what update() documents ("does not work for regions with overlap"); then no cell is in two job  *)
+(* matrices and a per-job prune sees all samples of a location                                                        *)
+MergesDisjoint(e, n) ==
     LET S == StateAt(e, n, {})
-    IN \A a, b \in DOMAIN S.jobs : a # b => Keys(S.jobs[a]) \cap Keys(S.jobs[b]) = {}
+    IN \A a, b \in DOMAIN S.jobs : a # b => (CellLocs(S.jobs[a]) \cup S.jobs[a].sites) \cap (CellLocs(S.jobs[b]) \cup S.jobs[b].sites) = {}
 
 FrameOk(fr, st, which) ==
     IF st.sites = {} \/ Keys(st) = {} THEN TRUE          \* "contains no data": raising is the documented answer
@@ -161,7 +164,7 @@ TInit == l = 1
 TNext == /\ l <= Len(Log)
          /\ (IF Log[l].ev = "api" THEN Judge(l, ApiVerdict(Log[l]))
              ELSE \A i \in DOMAIN Log[l].runs : Judge(l, RunVerdict(Log[l], Log[l].runs[i])))
-         /\ (IF OverlapNote(Log[l]) THEN Note(l, Log[l].tid, "update_with_overlapping_cells_overwrites_as_documented") ELSE TRUE)
+         /\ (IF OverlapNote(Log[l]) THEN Note(l, Log[l].tid, "location_in_two_jobs_outside_the_precondition_of_update") ELSE TRUE)
          /\ l' = l + 1
 TAccepted == TLCGet("stats").diameter - 1 = Len(Log)
 =====================================================================================================
